@@ -156,6 +156,8 @@ def run(scenario):
         for p in tap.problems:
             if p['kind'] == 'cannot_open_protected_message':
                 return w.violation(PROP, 'traffic_not_under_rfc_keys', p['sig'], p['detail'])
+            if p['kind'] == 'ike_auth_to_spi_of_no_sa_response':
+                return w.violation(PROP, 'traffic_not_under_rfc_keys', {'stage': 'first', 'why': 'responder SPI of another round'}, p['detail'])
             if p['kind'] == 'ike_rekey_skeyseed_prf':
                 return w.violation(PROP, 'ike_rekey_skeyseed_prf', p['sig'], p['detail'])
             if p['kind'] == 'ke_wrong_length':
